@@ -143,4 +143,21 @@ def execTail (i : TailIn) : TailOut :=
     else if !i.resultWriteOk then ⟨.fail, false⟩
     else ⟨.ok, true⟩
 
+/-! ### how often a dependency's command runs in one build (execute.go LoadDependencyOutputs)
+
+In `load_outputs=minimal` mode the task of a target that has to execute first loads the outputs of its
+direct dependencies; `if loadErr != nil || localDep.SkipsCache()` it re-runs the dependency's command
+inside its own task. A dependency therefore runs once in its own task plus once per executing
+dependant for which that condition holds. -/
+
+structure RerunCfg where
+  minimal   : Bool   -- load_outputs=minimal
+  noCache   : Bool   -- the dependency carries the `no-cache` tag
+  loadFails : Bool   -- cache fault: its outputs cannot be loaded
+  dependantsExecuting : Nat  -- direct dependants that execute in this build
+  deriving DecidableEq, Repr
+
+def execCount (c : RerunCfg) : Nat :=
+  1 + (if c.minimal && (c.noCache || c.loadFails) then c.dependantsExecuting else 0)
+
 end Grog.Pool
